@@ -73,8 +73,11 @@ def _generate_model_code(
             )
         )
 
-    # Derived
-    for name, derived in model.get_raw_derived().items():
+    # Derived, in dependency order
+    all_derived = model.get_raw_derived()
+    sorted_names = [i for i in model._create_cache().order if i in all_derived]  # noqa: SLF001
+    for name in sorted_names:
+        derived = all_derived[name]
         expr = custom_fns.get(name)
         if expr is None:
             expr = fn_to_sympy(
